@@ -382,7 +382,7 @@ func setOf(v sugardb.VerifState, db int, key string) (map[string]bool, bool) {
 }
 
 // popped reconstructs the random choice a node made for SPOP from its dataset before and after.
-func popped(before, after sugardb.VerifState, db int, key string, like Reply) map[string]any {
+func popped(before, after sugardb.VerifState, db int, key string, like Reply, count int64) map[string]any {
 	b, ok := setOf(before, db, key)
 	if !ok {
 		return like.JSON()
@@ -395,16 +395,34 @@ func popped(before, after sugardb.VerifState, db int, key string, like Reply) ma
 		}
 	}
 	sort.Strings(gone)
-	// a negative count selects with repetition: the reply is longer than the set of members removed
+	// a negative count selects |count| members with repetition: the selection is longer than the set of
+	// members removed
 	n := len(gone)
-	if like.T == "arr" && len(like.A) > n && n > 0 {
-		n = len(like.A)
+	if count < 0 && n > 0 {
+		n = int(-count)
 	}
 	out := Reply{T: "arr"}
 	for i := 0; i < n; i++ {
 		out.A = append(out.A, Reply{T: "bulk", B: []byte(gone[i%len(gone)])})
 	}
 	return out.JSON()
+}
+
+// countOf reads a count argument the way the server does (any decimal literal with an integral value).
+func countOf(t Tok) int64 {
+	switch t.Kind {
+	case "i":
+		return t.I
+	case "q":
+		if t.Inf == 0 && t.I%4 == 0 {
+			return t.I / 4
+		}
+	case "b":
+		if f, err := strconv.ParseFloat(string(t.B), 64); err == nil && f == float64(int64(f)) {
+			return int64(f)
+		}
+	}
+	return 1
 }
 
 func (rr *replRun) isSync(cmd []Tok) bool {
@@ -497,7 +515,11 @@ func (rr *replRun) step(cmd []Tok, db int, entry *Node) bool {
 	g := map[string]any{}
 	for _, n := range rr.live() {
 		if upper(cmd[0].S) == "SPOP" && len(cmd) >= 2 && !(n == entry && role == "leader") {
-			g[n.ID] = popped(rr.prev[n.ID], cur[n.ID], db, cmd[1].S, r)
+			count := int64(1)
+			if len(cmd) >= 3 {
+				count = countOf(cmd[2])
+			}
+			g[n.ID] = popped(rr.prev[n.ID], cur[n.ID], db, cmd[1].S, r, count)
 		} else {
 			g[n.ID] = r.JSON()
 		}
@@ -666,7 +688,11 @@ func (rr *replRun) program(p Program) bool {
 			}
 			continue
 		}
-		if !rr.step(s.Cmd, db, rr.pickEntry(rr.isSync(s.Cmd))) {
+		entry := rr.pickEntry(rr.isSync(s.Cmd))
+		if s.At == "leader" {
+			entry = rr.c.Leader()
+		}
+		if !rr.step(s.Cmd, db, entry) {
 			return false
 		}
 		if rr.r.Intn(12) == 0 && !rr.burst(db) {
@@ -686,6 +712,45 @@ func (rr *replRun) simple(kind string, extra map[string]any) {
 	rr.tr.Emit(ev)
 	rr.tot["events"]++
 	rr.tot[kind]++
+}
+
+// replScenarios: short scripted programs for shapes the random programs reach only now and then - a
+// read-modify-write on the leader of a key whose deadline has passed but which nobody has removed yet
+// (the handler comes across the expired entry, a deletion is replicated behind the write that re-creates
+// the key), the same through a follower's read, and an expiry set, passed and overwritten.
+func replScenarios() []Program {
+	L := func(t int64, c ...Tok) Step { return Step{Cmd: c, Tick: t, At: "leader"} }
+	A := func(t int64, c ...Tok) Step { return Step{Cmd: c, Tick: t} }
+	return []Program{
+		{Steps: []Step{
+			L(0, S("SET"), S("w1"), B("10"), S("PX"), I(50)),
+			L(100, S("INCR"), S("w1")),
+			L(0, S("GET"), S("w1")),
+			A(0, S("MGET"), S("w1"), S("w1")),
+			L(0, S("RPUSH"), S("w2"), B("a")),
+			L(0, S("PEXPIRE"), S("w2"), I(40)),
+			L(100, S("LPUSH"), S("w2"), B("b")),
+			A(0, S("LRANGE"), S("w2"), I(0), I(-1)),
+			L(0, S("SET"), S("w3"), B("x"), S("PX"), I(30)),
+			L(100, S("APPEND"), S("w3"), B("yz")),
+			A(500, S("GET"), S("w3")),
+			A(0, S("MGET"), S("w3")),
+		}},
+		{Steps: []Step{
+			L(0, S("SADD"), S("w4"), B("m")),
+			L(0, S("PEXPIRE"), S("w4"), I(20)),
+			A(100, S("MGET"), S("w4")),
+			L(0, S("SADD"), S("w4"), B("n")),
+			A(0, S("SMEMBERS"), S("w4")),
+			L(0, S("SET"), S("w5"), B("1"), S("PX"), I(20)),
+			L(100, S("SET"), S("w5"), B("2")),
+			A(0, S("TTL"), S("w5")),
+			L(0, S("HSET"), S("w6"), B("f"), B("v")),
+			L(0, S("PEXPIRE"), S("w6"), I(20)),
+			L(100, S("HSET"), S("w6"), B("g"), B("w")),
+			A(0, S("HGETALL"), S("w6")),
+		}},
+	}
 }
 
 func replPrograms(r *rand.Rand, n, length int) []Program {
@@ -768,6 +833,10 @@ func cmdRepl(args []string) {
 		rr.sync[e.Name] = e.Sync
 	}
 	progs := replPrograms(r, *nprog, *length)
+	if sc := replScenarios(); len(progs) > len(sc) {
+		// the scripted scenarios run as the second and third program (after the cluster has seen one random one)
+		progs = append(progs[:1], append(sc, progs[1:len(progs)-len(sc)]...)...)
+	}
 	ok := true
 	for i, p := range progs {
 		if !rr.program(p) {
